@@ -43,6 +43,8 @@ def plan(tier, seed):
             t.append(("pairs", n, (7000 if q else 60000) // 8, seed * 100 + i))
     for i in range(8):
         t.append(("members6", (760 if q else 7600) // 8, seed * 100 + i))
+    if tier == "thorough":
+        t.append(("repo-tests",))
     random.Random(seed).shuffle(t)
     return t
 
@@ -116,6 +118,21 @@ def object_sequence(p, gens, n, rnd):
 
 
 def work(task):
+    if task[0] == "repo-tests":
+        # the repository's own tests as one more workload, with the contracts attached
+        p = Partial()
+        r = contracts.run_repo_tests(('predicates',), ['test_stabilizer.py', 'test_lc_classes.py'])
+        if r is None:
+            p.counters["repository tests under contracts: could not run"] += 1
+            return p
+        log, evals, status = r
+        p.evals += sum(v for k, v in evals.items() if "out-of-domain" not in k)
+        p.counters["repository tests under contracts: contract evaluations"] += sum(evals.values())
+        for v in log:
+            if v["contract"].startswith(('is_equivalent_mod_phase', 'expand', 'is_qubit_entangled')):
+                p.violate("under-repo-tests " + v["contract"] + " " + v.get("tag", ""), v["what"] + " (while running the repository's own tests)", dict(v.get("case") or {}, repo_tests=True))
+        p.extra["contract_evals"] = __import__("collections").Counter({k: v for k, v in evals.items()})
+        return p
     contracts.install("htstabilizer", which=("predicates",))
     contracts.take()
     p = Partial()
